@@ -251,8 +251,82 @@ def run_case(case):
     return finish(ex, case.get("seed", 0))
 
 
+def _exports(ex, seed):
+    """Up to three live URLs, pickled, with their in-process deep observation: the zygote
+    unpickles them in a *pristine* process and compares (a restored URL must not depend on
+    anything the original process had cached or registered)."""
+    import base64
+    import pickle
+
+    rng = C.run_rng(seed ^ 0x5EED)
+    live = ex.live()
+    out = []
+    for i in sorted(rng.sample(live, min(3, len(live)))):
+        u = ex.slots[i]
+        order = list(W.ALL_READS)
+        rng.shuffle(order)
+        try:
+            blob = pickle.dumps(u, protocol=rng.choice(W.PICKLE_PROTOS))
+        except Exception:  # noqa
+            continue
+        out.append({"idx": i, "order": order, "pickle": base64.b64encode(blob).decode("ascii"), "obs": W.deep(u, order),
+                    "state": list(W.shallow(u)), "route": ex.ops[i]["op"], "root": ex.root_of(i)})
+    return out
+
+
+def cold_twins(exports):
+    """Runs in a pristine fork."""
+    import base64
+    import pickle
+
+    out = []
+    for e in exports:
+        try:
+            t = pickle.loads(base64.b64decode(e["pickle"]))
+            out.append({"obs": W.deep(t, e["order"]), "state": list(W.shallow(t))})
+        except BaseException as ex_:  # noqa
+            if isinstance(ex_, (KeyboardInterrupt, SystemExit)):
+                raise
+            out.append({"obs": {"<unpickle>": W.exc_outcome(ex_)}, "state": None})
+    return out
+
+
+def _cross_process(res, cfg):
+    from .zygote import in_fork
+
+    exports = res.pop("exports", None) or []
+    if not exports:
+        return res
+    cold = in_fork(cold_twins, exports, timeout=cfg.get("timeout", 120))
+    res["counters"]["cross_process_twins"] = len(exports)
+    for e, c in zip(exports, cold):
+        names = W.deep_diff(e["obs"], c["obs"])
+        if names or (c["state"] is not None and c["state"] != e["state"]):
+            diff = {n: [_lookup(e["obs"], n), _lookup(c["obs"], n)] for n in names[:12]}
+            if c["state"] != e["state"]:
+                diff["state"] = [e["state"], c["state"]]
+            res["violations"].append({"kind": "twin_mismatch", "when": "cross_process", "orig": e["idx"], "twin": None,
+                                      "orig_state": e["state"], "twin_state": c["state"], "route": e["route"], "root": e["root"], "diff": diff})
+    return res
+
+
+def zy_run_seed(seed, cfg):
+    from .zygote import in_fork
+
+    res = in_fork(generate_and_run, seed, cfg, timeout=cfg.get("timeout", 120))
+    return _cross_process(res, cfg)
+
+
+def zy_run_case(case, cfg):
+    from .zygote import in_fork
+
+    res = in_fork(run_case, case, timeout=cfg.get("timeout", 120))
+    return _cross_process(res, cfg)
+
+
 def finish(ex, seed):
     return {
+        "exports": _exports(ex, seed) if seed % 3 == 0 else [],
         "seed": seed,
         "case": {"machine": "c09", "seed": seed, "knobs": ex.knobs, "ops": ex.ops},
         "violations": ex.violations,
